@@ -58,10 +58,10 @@ theorem bind_ok {α : Type} {x : R α} {g : α → R Val} {d' : Val}
   | error e => cases h
   | ok s => exact ⟨s, rfl, h⟩
 
-theorem withSubdoc_doc_touch (f : Val → String → R Val) (p : String) (rest : List String)
-    (fol : Bool) (ss : Val) (fs : Fields) (d' : Val)
+theorem withSubdoc_doc_touch (f : Val → String → R Val) (create : Bool) (p : String)
+    (rest : List String) (fol : Bool) (ss : Val) (fs : Fields) (d' : Val)
     (hf : ∀ d', f (.doc fs) p = .ok d' → ∃ fs', d' = .doc fs' ∧ Touch p fs fs')
-    (h : withSubdoc f (p :: rest) fol ss (.doc fs) = .ok d') :
+    (h : withSubdoc f create (p :: rest) fol ss (.doc fs) = .ok d') :
     ∃ fs', d' = .doc fs' ∧ Touch p fs fs' := by
   cases rest with
   | nil =>
@@ -69,6 +69,8 @@ theorem withSubdoc_doc_touch (f : Val → String → R Val) (p : String) (rest :
     exact hf d' h
   | cons q rest =>
     simp only [withSubdoc] at h
+    split at h
+    · cases h; exact ⟨_, rfl, .inl rfl⟩
     generalize (ite ((!fol) = true) _ _ : Bool × Val × Bool) = t at h
     by_cases hb : t.2.2 = true
     · rw [if_pos hb] at h; cases h
@@ -112,7 +114,7 @@ theorem addToSetField_touch (spec : Val) (fs : Fields) (field : String) (value d
   · split at h
     · cases h
     · rw [splitDots_cons] at h
-      refine withSubdoc_doc_touch _ _ _ _ _ fs d' ?_ h
+      refine withSubdoc_doc_touch _ _ _ _ _ _ fs d' ?_ h
       intro d'' h'
       obtain ⟨s, rfl⟩ := bind_pure_ok h'
       exact ⟨_, rfl, .inr (.inl ⟨_, rfl⟩)⟩
@@ -154,13 +156,114 @@ theorem pullAllField_touch (spec : Val) (fs : Fields) (field : String) (value d'
       exact ⟨_, rfl, .inr (.inl ⟨_, rfl⟩)⟩
     · cases h; exact ⟨_, rfl, .inl rfl⟩
   · rw [splitDots_cons] at h
-    refine withSubdoc_doc_touch _ _ _ _ _ fs d' ?_ h
+    refine withSubdoc_doc_touch _ _ _ _ _ _ fs d' ?_ h
     intro d'' h'
     simp only at h'
     split at h'
     · obtain ⟨s, rfl⟩ := bind_pure_ok h'
       exact ⟨_, rfl, .inr (.inl ⟨_, rfl⟩)⟩
     · cases h'; exact ⟨_, rfl, .inl rfl⟩
+
+/-! ### `$pullAll` on a path that does not exist -/
+
+theorem getPath_single_doc_none {last : String} {ps : Fields}
+    (h : getPath [last] (.doc ps) = none) : dget last ps = none := by
+  cases hg : dget last ps with
+  | none => rfl
+  | some v => simp [getPath, hg] at h
+
+theorem withSubdoc_nocreate_missing (f : Val → String → R Val)
+    (hf : ∀ parent last r, getPath [last] parent = none → f parent last = .ok r → r = parent) :
+    ∀ (parts : List String) (fol : Bool) (ss d d' : Val), parts ≠ [] →
+      getPath parts d = none → withSubdoc f false parts fol ss d = .ok d' → d' = d
+  | [], _, _, _, _, hp, _, _ => absurd rfl hp
+  | [last], fol, ss, d, d', _, hm, h => by
+    cases d with
+    | arr xs =>
+      simp only [withSubdoc] at h
+      split at h
+      · cases h
+      · split at h
+        · cases h
+        · exact hf _ _ _ hm h
+    | _ => simp only [withSubdoc] at h; exact hf _ _ _ hm h
+  | part :: q :: rest, fol, ss, d, d', _, hm, h => by
+    cases d with
+    | arr xs =>
+      simp only [withSubdoc] at h
+      split at h
+      · cases h
+      · cases hi : pyInt? part with
+        | none => simp only [hi] at h; cases h
+        | some i =>
+          simp only [hi] at h
+          by_cases hneg : i < 0
+          · simp [hneg, unmodelled] at h
+          · simp only [hneg, if_false] at h
+            cases hx : xs[i.toNat]? with
+            | none => simp only [hx] at h; cases h
+            | some sub =>
+              simp only [hx] at h
+              obtain ⟨sub', h1, h2⟩ := bind_ok h
+              cases h2
+              have hgp : getPath (q :: rest) sub = none := by
+                simpa [getPath, hi, hneg, hx] using hm
+              rw [withSubdoc_nocreate_missing f hf (q :: rest) _ _ sub sub' (by simp) hgp h1]
+              congr 1
+              rcases List.getElem?_eq_some_iff.mp hx with ⟨hl, he⟩
+              rw [← he]; exact List.set_getElem_self hl
+    | doc fs =>
+      simp only [withSubdoc] at h
+      cases hg : dget part fs with
+      | none => simp [hg] at h; exact h.symm
+      | some sub =>
+        simp only [hg, Option.isNone_some, Bool.and_false, Bool.false_eq_true, if_false,
+          Option.getD_some] at h
+        generalize (ite ((!fol) = true) _ _ : Bool × Val × Bool) = t at h
+        by_cases hb : t.2.2 = true
+        · rw [if_pos hb] at h; cases h
+        · rw [if_neg hb] at h
+          obtain ⟨sub', h1, h2⟩ := bind_ok h
+          cases h2
+          have hgp : getPath (q :: rest) sub = none := by
+            simpa [getPath, hg] using hm
+          rw [withSubdoc_nocreate_missing f hf (q :: rest) _ _ sub sub' (by simp) hgp h1,
+            dset_self hg]
+    | str s =>
+      simp only [withSubdoc] at h
+      split at h
+      · cases h; rfl
+      · cases h
+    | _ => simp only [withSubdoc] at h; cases h
+  termination_by parts => parts.length
+
+theorem pullAll_missing_noop (spec d : Val) (field : String) (value d' : Val)
+    (hm : getPath (splitDots field) d = none)
+    (h : pullAllField spec d field value = .ok d') : d' = d := by
+  simp only [pullAllField] at h
+  split at h
+  · cases h
+  split at h
+  · cases h
+  split at h
+  · rename_i f fs0 hsd
+    rw [hsd] at hm
+    rw [getPath_single_doc_none hm] at h
+    cases h; rfl
+  · refine withSubdoc_nocreate_missing _ ?_ _ _ _ _ d' (splitDotsChars_ne_nil _ _) hm h
+    intro parent last r hp hr
+    cases parent with
+    | doc ps =>
+      simp only [getPath_single_doc_none hp] at hr
+      cases hr; rfl
+    | arr xs => simp [unmodelled] at hr
+    | str p =>
+      simp only at hr
+      split at hr
+      · cases hr
+      · cases hr; rfl
+    | null => cases hr; rfl
+    | _ => simp at hr
 
 theorem pushField_touch (spec : Val) (fs : Fields) (field : String) (value d' : Val)
     (h : pushField spec (.doc fs) field value = .ok d') :
@@ -171,7 +274,7 @@ theorem pushField_touch (spec : Val) (fs : Fields) (field : String) (value d' : 
   split at h
   · cases h
   rw [splitDots_cons] at h
-  refine withSubdoc_doc_touch _ _ _ _ _ fs d' ?_ h
+  refine withSubdoc_doc_touch _ _ _ _ _ _ fs d' ?_ h
   intro d'' h'
   obtain ⟨s, rfl⟩ := bind_pure_ok h'
   exact ⟨_, rfl, .inr (.inl ⟨_, rfl⟩)⟩
